@@ -33,6 +33,18 @@ CHECKS = {
    text="PARTIAL: the operator precedence table itself. For all pairs of token kinds, TokenKind::precedence orders the operators exactly as the documented table (member access > ** > prefix > * / // % > + - > shifts > && > ^^ > || > ranges > comparisons > and > or; same row <=> same precedence), no binary operator of the table is right-associative, and opening brackets bind weaker than every operator. Kani loop-free over all token kinds (complete).",
    note="Not carried: the reduce loop in Parser::try_reduce_expr that consumes the table (a change of `>=` there is invisible to this check), Lexer::op_fix (minus before a literal), method calls and parentheses. The documented table is transcribed from the property statement.",
    technique=TECH_K),
+ "C21": dict(engine="replay", category="exploration",
+   text="BOUNDED, not a proof. No deductive back end reaches ModuleGraph/tsort (hash collections: Kani did not finish a 2-node tsort in 25 minutes; Verus rejects iter().find(closure), iter_mut(), retain(closure)). The contracts are executable predicates checked at run time after EVERY operation of EVERY operation sequence (add_node_if_none, inc_ref, remove, rename_path, sort) up to length 4 over 3 module paths (thorough: length 5 over 3 paths and length 4 over 4 paths) on the real ModuleGraph, against a plain reference graph: registered modules, get_node, depends_on, deep_depends_on, ancestors, children for every path (pair); inc_ref refused <=> the edge closes a cycle, and then the edge set is unchanged; sorted lists every module after its dependencies and fails only on a cycle.",
+   note="Exhaustive only up to the stated bound. Import edges are added between registered modules (the harness registers the target first); rename targets are fresh paths. SharedModuleGraph (locking) is not exercised.",
+   technique="run-time-checked contracts on the real code, exhaustive enumeration of operation sequences up to a stated bound (bounded stand-in for contract verification)"),
+ "C28": dict(engine="kani", category="other",
+   text="BOUNDED, not a proof. els::util::pos_to_byte_index (real text, Kani with unwinding bound and unwinding assertions) on every valid UTF-8 document of at most 4 bytes (multi-byte and astral characters, LF and CRLF) and every position with line <= 3, character <= 4: the result is <= len, on a char boundary (so String::replace_range in incremental_update cannot panic) and equals the byte index the LSP position denotes (UTF-16 code units; an offset past the end of a line means the end of that line).",
+   note="Only documents up to the stated size. FileCache::incremental_update itself (lock, VFS, re-lex), full-document sync, and 'the server keeps running' beyond the panic-freedom of the range computation are not carried.",
+   technique="Kani bounded harness (stated unwinding bound) on the extracted real function against an independent LSP position spec; counterexamples replayed through the guarded hook"),
+ "C31": dict(engine="replay", category="exploration",
+   text="BOUNDED, not a proof. std::path::Components is outside Verus and a Kani harness over 4 symbolic path bytes did not finish in 15 minutes, so the contracts are executable predicates checked on the real cheap_canonicalize_path / normalize_path / NormalizedPathBuf::new for EVERY path of up to 8 components (the property's own bound; thorough: 10) over {., .., a, b}, relative and absolute: normalisation is idempotent, the number of leading `..` of a relative path is preserved, and two paths with the same normal form have the same lexical resolution (name the same file).",
+   note="Exhaustive only up to the stated bound and alphabet; symlinks, case-insensitive file systems and Windows prefixes are not exercised.",
+   technique="run-time-checked contracts on the real code, exhaustive enumeration of paths up to a stated bound (bounded stand-in for contract verification)"),
  "C24": dict(engine="kani", category="proof",
    text="PARTIAL: the location calculus every diagnostic position is built with. Location::concat/left_main_concat/stream give the exact span for two ranges, a well-formed result for well-formed operands in source order, never invent a line, and are Unknown only if both operands are; accessors and Locational defaults return the stored coordinates; Token::loc places a token on its own line between its columns. Kani loop-free over all u32 coordinates (complete).",
    note="Not carried: that lowering attaches the right node's location to each error, that callers pass operands in source order, format_context/format_code_and_pointer rendering (string formatting over StyledStrings), and column bookkeeping in the lexer (C08).",
@@ -103,7 +115,7 @@ def main():
         })
     for e in ENGINES:
         e["serves_properties"] = sorted(p for p in CHECKS if e["name"] in CHECKS[p]["engine"] or e["name"] in ("extract", "replay"))
-    hooks_commits = ["b58f5221"]
+    hooks_commits = ["b58f5221", "ea3878b4"]
     m = {
         "version": 1,
         "setup_cmd": "true",
